@@ -20,6 +20,7 @@ from mc.par import pmap
 
 E = enums
 MASKS = [CUM.ENCRYPT, CUM.DECRYPT]
+W.use_rsa_pool(1)      # one key for every generated pair: executions must be reproducible
 TRACE_FILES = ('kmip/services/server/engine.py',)
 # thorough tier: call events of the session and authentication layers are schedule points as well
 # (code that runs outside the engine lock)
@@ -80,6 +81,16 @@ HARNESSES = {
                                       R((1, 4), lambda: [W.p_create()], async_indicator=True)]),
                            ('bob', [R((2, 0), lambda: [W.p_create()]),
                                     R((1, 0), lambda: [W.p_get_attribute_list('2')])])],
+    # a slow operation (key generation, derivation) followed in the same batch by version-sensitive
+    # items, against a request of another version: whatever a handler does around its slow part, the
+    # rest of the batch runs under its own request's version
+    'keypair_batch_vs_query': [('alice', [R((1, 2), lambda: [W.p_create_key_pair(**W.rsa_pair_attrs()),
+                                                          W.p_query(), W.p_get_attribute_list('1')])]),
+                               ('bob', [R((1, 0), lambda: [W.p_query()])])],
+    'derive_batch_vs_attribute_list': [('alice', [R((1, 0), lambda: [W.p_derive_key(['1']),
+                                                                    W.p_get_attribute_list('1'),
+                                                                    W.p_discover()])]),
+                                       ('bob', [R((2, 0), lambda: [W.p_get_attribute_list('1')])])],
     'four_clients': [('alice', [R((1, 0), lambda: [W.p_create()])]),
                      ('bob', [R((1, 4), lambda: [W.p_get_attribute_list('2')])]),
                      ('carol', [R((2, 0), lambda: [W.p_get_attribute_list('1')])]),
@@ -107,7 +118,7 @@ CHUNKED = {
 HARNESSES.update(CHUNKED)
 QUICK = ['create_create', 'batch_placeholder', 'attribute_policy', 'version_gate',
          'batch_query_vs_query', 'two_each', 'three_creates', 'slugs_team_get', 'chunked_create_create',
-         'rejected_vs_create']
+         'rejected_vs_create', 'keypair_batch_vs_query', 'derive_batch_vs_attribute_list']
 
 _BASE = None
 
